@@ -834,6 +834,18 @@ func runC09(args []string) error {
 			if err := json.Unmarshal(c, &x); err != nil {
 				return err
 			}
+			if x.Kind == "lock" {
+				var y struct {
+					Input c09LInput `json:"input"`
+				}
+				if err := json.Unmarshal(c, &y); err != nil {
+					return err
+				}
+				if err := c09RunLock(co, y.Input, dir, i); err != nil {
+					return err
+				}
+				continue
+			}
 			if x.Kind == "sched" {
 				var y struct {
 					Input c09SInput `json:"input"`
@@ -907,6 +919,14 @@ func runC09(args []string) error {
 		ops, q := c09GenSched(r)
 		if err := c09RunSched(co, c09SInput{Backend: backends[i%3], Ops: ops, Q: q}, dir, cf.n+i); err != nil {
 			return fmt.Errorf("schedule %d: %w", i, err)
+		}
+	}
+	// lock-level schedules: a reader queued behind a queued Persist (needs the verif hook of pkg/core/storage)
+	for i := 0; i < 2*cf.n; i++ {
+		in := c09GenLock(r)
+		in.Backend = backends[i%3]
+		if err := c09RunLock(co, in, dir, 5*cf.n+i); err != nil {
+			return fmt.Errorf("lock schedule %d: %w", i, err)
 		}
 	}
 	co.extra["x_backends"] = c09PerBackend
